@@ -13,6 +13,7 @@ import (
 
 	"github.com/fogfish/golem/duct"
 	"verif/drv"
+	"verif/objdump"
 )
 
 type X struct{ N int }
@@ -288,8 +289,10 @@ func bfs(src, first, depth int, deadline time.Time) drv.Result {
 				res.States = len(seen)
 				return res
 			}
-			_, cur, ref := np.build()
-			key := ref.String() + "|" + cur
+			mm, cur, ref := np.build()
+			// the state is the real object graph behind the morphism (hidden fields included) plus the
+			// reference tree and the static type
+			key := objdump.Dump(mm) + "|" + ref.String() + "|" + cur
 			if !seen[key] {
 				seen[key] = true
 				frontier = append(frontier, item{np, cur})
@@ -341,7 +344,7 @@ func main() {
 	}
 	drv.Main(drv.Property{
 		ID: "C16", Level: "model_checking", PanicIsViolation: true,
-		Rule:        "explicit-state BFS: a state is (printed reference tree with node kinds, recorded type names and open/closed flags; current static type); from From[A] with A in {X, []X, [][]X}, every well-typed step (Join to any of 8 types, LiftF to any of 8 types, WrapF, Unit, Yield) over the universe {X, []X, [][]X, [][][]X, Y, []Y, Void, []Void} is applied, up to 5 (6 in thorough) steps, nesting up to 3; each program is replayed on a fresh From (each intermediate morphism used once), visited with a recording visitor (trace must equal the reference builder's trace incl. depths, type names = duct.TypeOf of the step's type parameters, Root flags, child counts; enter/leave well-bracketed), and re-visited with a visitor failing at every callback position (that very error returned, no further callback); non-trivial = distinct trees reached",
+		Rule:        "explicit-state BFS: a state is (the complete object graph behind the real morphism obtained by reflection, printed reference tree with node kinds, recorded type names and open/closed flags; current static type); from From[A] with A in {X, []X, [][]X}, every well-typed step (Join to any of 8 types, LiftF to any of 8 types, WrapF, Unit, Yield) over the universe {X, []X, [][]X, [][][]X, Y, []Y, Void, []Void} is applied, up to 5 (6 in thorough) steps, nesting up to 3; each program is replayed on a fresh From (each intermediate morphism used once), visited with a recording visitor (trace must equal the reference builder's trace incl. depths, type names = duct.TypeOf of the step's type parameters, Root flags, child counts; enter/leave well-bracketed), and re-visited with a visitor failing at every callback position (that very error returned, no further callback); non-trivial = distinct trees reached",
 		Assumptions: []string{"the reference builder (tree + innermost-open-context rule) encodes the statement", "type universe limited to 8 element types; generics are instantiated statically by a generated table (e2/c16/reg_gen.go)"},
 		Cases: func(tier string) (int, func(int) string) {
 			cs := caseList()
